@@ -4,12 +4,12 @@ actual deltas at the displayed precision) on every container produced by the wor
 helpers checked directly over 16 decades, and the instruction of every baked recipe step."""
 from __future__ import annotations
 
-from .common import shard, run_cases, BASE_ASSUMPTIONS, repo_suite, repo_suite_job
+from .common import under_display_configs, shard, run_cases, BASE_ASSUMPTIONS, repo_suite, repo_suite_job
 
 ID = 'C19'
 LEVEL = 'exploration'
 DECIDING = ['INSTR.transfer', 'INSTR.ctor', 'INSTR.fill_to', 'INSTR.dilute', 'INSTR.create_solution',
-            'INSTR.create_solution_from', 'INSTR.rescale', 'INSTR.recipe_step']
+            'INSTR.create_solution_from', 'INSTR.rescale', 'INSTR.recipe_step', 'INSTR.dataframe']
 MIN_EVAL = {'quick': 10000, 'thorough': 200000}
 MIN_MONITOR = {'INSTR.transfer': 3000, 'INSTR.ctor': 800, 'INSTR.fill_to': 200, 'INSTR.dilute': 50,
                'INSTR.create_solution': 50, 'INSTR.create_solution_from': 30, 'INSTR.rescale': 2000,
@@ -25,7 +25,7 @@ ASSUMPTIONS = BASE_ASSUMPTIONS + ['rewording is free: only names and <number> <u
 
 def required_buckets(tier):
     req = ['C19/transfer/liquid/', 'C19/transfer/no_liquid/', 'C19/fill_to/', 'C19/dilute/', 'C19/ctor/ok',
-           'C19/create_solution/ok', 'C19/create_solution_from/ok', 'C19/rescale/']
+           'C19/create_solution/ok', 'C19/create_solution_from/ok', 'C19/rescale/', 'C19/dataframe/ok']
     for mag in ('1e-10', '1e-8', '1e-6', '1e-4', '1e-2', '1e0', '1e1'):
         req.append(f'C19/transfer/liquid/{mag}')
     req += ['C19/recipe/transfer', 'C19/recipe/fill_to', 'C19/recipe/dilute', 'C19/create_solution/container_solvent/']
@@ -41,8 +41,10 @@ def plan(tier, seed):
 
 def _plan(tier, seed):
     if tier == 'quick':
-        return shard('history', 200, 8) + shard('rescale', 4, 2) + shard('recipe', 100, 3)
-    return shard('history', 5000, 24) + shard('rescale', 40, 4) + shard('recipe', 3000, 12)
+        return (shard('history', 200, 8) + shard('rescale', 4, 2) + shard('recipe', 100, 3)
+                + under_display_configs(shard('history', 30, 2) + shard('rescale', 1, 1) + shard('recipe', 20, 2)))
+    return (shard('history', 5000, 24) + shard('rescale', 40, 4) + shard('recipe', 3000, 12)
+            + under_display_configs(shard('history', 500, 8) + shard('rescale', 4, 2) + shard('recipe', 300, 6)))
 
 
 def run_job(job):
@@ -73,11 +75,20 @@ def history(rng, case, idx):
             w.objs['enzonly'] = pp.Container('enzonly', initial_contents=[(enz[0], spell(rng, 10 ** rng.uniform(-3, 4), 'U'))])
     w.add_plate()
     weights = {'cc': 8, 'cp': 3, 'pc': 2, 'pp': 2, 'remove': 0, 'fill': 3, 'observe': 0, 'newc': 1}
+    from pv import instr as I
     for _ in range(rng.randint(10, 30)):
         if rng.random() < 0.25:
             extra_ops(w)
         else:
             w.history_step(weights)
+        if rng.random() < 0.3:
+            # the human-readable table of a live container or well
+            o = w.objs[rng.choice(list(w.objs))]
+            if isinstance(o, pp.Plate):
+                o = o.wells[rng.randrange(o.wells.shape[0]), rng.randrange(o.wells.shape[1])]
+            if isinstance(o, pp.Container):
+                with M.active(case):
+                    I.check_dataframe(o)
 
 
 def rescale(rng, case, idx):
